@@ -23,6 +23,7 @@ SPEC = "Stream"
 XS = [dict(d=0, r=0, fuse=1), dict(d=0, r=0, fuse=0), dict(d=1, r=0, fuse=1), dict(d=2, r=0, fuse=0),
       dict(d=2, r=1, fuse=1), dict(d=3, r=1, fuse=0), dict(d=1, r=0, fuse=0)]
 
+STATEFUL = {"Sum", "Dedup", "BSum2", "BSum3", "BFlat2", "BFlat3", "Buf1", "Buf2", "OPar1", "OPar2", "OPar3", "Par2", "Par3", "FMC", "FMM2"}
 DEMAND_STAGES = {"Inc", "Dbl", "Even", "Odd", "Dup", "Rep", "Err2", "Err3", "Err4", "BSum2", "BSum3", "Buf1", "Buf2"}
 
 
@@ -58,6 +59,13 @@ def assign_x(ctx, cases, first_id=1):
         x["jit"] = ctx.rng.choice([0, 1])
         c["x"] = x
         c["id"] = first_id + i
+        # the same blueprint VALUE (sources + flows) is materialized twice - one after the other or concurrently -
+        # for every case with a stateful stage and for a fifth of the others: state must not leak between
+        # materializations.  Fan-outs are excluded (a Broadcast/Balance/Partition hub is single-use by design).
+        stages = [st for sc in c["srcs"] for st in sc["p"]] + list(c["post"]) + [st for b in c["branches"] for st in b]
+        if c["j"] not in ("Broadcast", "Balance", "Partition") and (any(st in STATEFUL for st in stages) or ctx.rng.random() < 0.2):
+            c["reps"] = 2
+            c["par"] = 1 if ctx.rng.random() < 0.25 else 0
     return cases
 
 
@@ -112,7 +120,7 @@ def judge(ctx, rfile, name, timeout=1800, chunk=6000):
 
 
 def describe(row):
-    return json.dumps({k: row.get(k) for k in ("id", "j", "srcs", "post", "branches", "x", "outs", "errs", "done", "first", "runerr")},
+    return json.dumps({k: row.get(k) for k in ("id", "j", "srcs", "post", "branches", "x", "reps", "par", "run", "outs", "errs", "done", "first", "runerr")},
                       separators=(",", ":"))
 
 
@@ -204,7 +212,7 @@ def design_demand(ctx):
 
 def demand_conformance(ctx, exe, lin_cases):
     """Protocol traces of linear chains vs Demand.tla (drift only)."""
-    pool = [c for c in lin_cases if c["srcs"][0]["p"] and all(s in DEMAND_STAGES for s in c["srcs"][0]["p"])]
+    pool = [dict(c, reps=1, par=0) for c in lin_cases if c["srcs"][0]["p"] and all(s in DEMAND_STAGES for s in c["srcs"][0]["p"])]
     pool = vlib.sample(ctx.rng, pool, 70 if ctx.quick else 1500)
     cases = []
     for i, c in enumerate(pool):
@@ -268,6 +276,8 @@ def run(ctx, pid):
     exe = boxC["res"]
     assumptions = [
         "elements are int64, stage parameters come from the fixed vocabulary of Sem.tla (harness/cmd/streams `via`); sources are stream.Of",
+        "every case with a stateful stage (and a fifth of the others, fan-outs excepted) is materialized twice from the SAME blueprint value, "
+        "sequentially or concurrently, each run judged on its own",
         "small demand windows are forced through the verif-tag shim VerifFlowDemand/VerifSinkDemand (public API reaches them only via Buffer(n) "
         "or > 224 buffered elements); the batch stage keeps the library window and an hour-long maxWait (size-driven chunking only)",
         "real executions are free-running (goakt's dispatcher schedules the stage actors); schedule diversity comes from the demand windows, "
@@ -315,7 +325,8 @@ def run(ctx, pid):
                  "package under a seeded execution configuration; non-trivial = some non-empty input and at least one stage or a junction")
                 % (("linear pipeline" if linear else "junction graph"), ("Gen_linear_%s.cfg" if linear else "Gen_junction_%s.cfg") % sfx),
         "exhaustive": True, "exhaustive_cases": len(exh), "random_cases": len(rnd),
-        "driver": stats, "monitor_non_ok": len(bad), "known_finding_hits": known, "transient_first_attempt_failures": transient[:20],
+        "driver": stats, "monitor_non_ok": len(bad),
+        "repeated_blueprints": sum(1 for c in cases if c.get("reps", 1) > 1), "repeated_concurrently": sum(1 for c in cases if c.get("par") == 1), "known_finding_hits": known, "transient_first_attempt_failures": transient[:20],
         "transient_count": len(transient), "spin_witness": spin_stats,
     }
 
